@@ -9,6 +9,6 @@ ASSUMPTIONS = ["block-memory semantics of raw pointers / Vec / Box as modelled i
                "uninitialised-memory reads and provenance are not tracked"]
 TRUSTED_EXTRA = ["ledger allocator harness/src/ledger.rs (tracked sections, quarantine, red zones)"]
 DIRECT = r'^c04-'
-def translators(ctx, bins): pass
+def translators(ctx, bins): eng_heap.translators(ctx)
 def engines(ctx, bins): eng_heap.absorb(ctx, eng_heap.run(ctx, bins), DIRECT)
 def replay(ctx, bins, payload): eng_heap.replay(ctx, bins, payload, DIRECT)
